@@ -477,15 +477,38 @@ def equal_expiry_merge(ctx):
                     (eq if x.op in ('==', '!=') else rel).append((node, x))
     ctx.inst('TMR.insert-comparisons', len(rel) + len(eq))
     ctx.require_min(props, 'RF15-equal-merge', len(rel), 2, 'relational comparisons of the new interval in COTmrInsert')
+    # decided on edges, not on the spelling of the operator: from the edge a relational test takes when the two times are
+    # EQUAL, no node that takes an event from the free list (a new event for this action) may be reached before the times
+    # are compared again (another relational test or the equality test)
+    FREE = ('CO_TMR', 'Free')
+    ins = set(nd.id for nd in g.nodes if nd.x is not None and m.field_stores(nd.x, FREE))
+    cmpnodes = set(nd.id for (nd, x) in rel + eq)
     for (node, x) in rel:
+        on_equal = x.op in ('<=', '>=')          # value of the test when both sides are equal
         site = '%s: %s' % (m.loc(f, node.line), show(x))
-        if x.op in ('<', '>'):
-            ctx.ob(props, 'RF15-equal-merge', f, site, 'strict')
+        bad = None
+        for (t, lab) in node.succ:
+            if lab != on_equal:
+                continue
+            seen = set()
+            st = [t]
+            while st and bad is None:
+                a_ = st.pop()
+                if a_ in seen or a_ in cmpnodes:
+                    continue
+                seen.add(a_)
+                if a_ in ins:
+                    bad = g.nodes[a_]
+                    break
+                st.extend(tt for (tt, ll) in g.nodes[a_].succ)
+        if bad is None:
+            ctx.ob(props, 'RF15-equal-merge', f, site, 'on equality no new event is taken before the times are compared again')
         else:
             ctx.ob(props, 'RF15-equal-merge', f, site, None)
-            ctx.find(props, 'RF15-equal-merge', f, 'non-strict-comparison', m.loc(f, node.line),
-                     '%s is not strict: an action that falls due exactly together with a pending event does not join that event '
-                     '(it gets its own event, the neighbour is left with Delta 0 and never fires / or it is queued behind it)' % show(x))
+            ctx.find(props, 'RF15-equal-merge', f, 'equal-takes-new-event', m.loc(f, node.line),
+                     'when the new interval EQUALS the accumulated time, %s leads to taking a new event (line %d) without '
+                     'reaching the equality test: an action that falls due exactly together with a pending event does not join '
+                     'it (own event, the neighbour is left with Delta 0 and never fires)' % (show(x), bad.line))
     # the equality branch appends behind the tail
     ok = False
     for (node, x) in eq:
